@@ -541,8 +541,10 @@ func cmdRun(args []string) int {
 	}
 	os.MkdirAll(filepath.Join(*verif, "evidence"), 0o755)
 	eb, _ := json.MarshalIndent(ev, "", " ")
-	if err := os.WriteFile(filepath.Join(*verif, "evidence", p.ID()+".json"), eb, 0o644); err != nil {
-		infra += err.Error() + "\n"
+	if os.Getenv("VERIF_NO_EVIDENCE") == "" { // maintenance runs against scratch copies do not touch the evidence
+		if err := os.WriteFile(filepath.Join(*verif, "evidence", p.ID()+".json"), eb, 0o644); err != nil {
+			infra += err.Error() + "\n"
+		}
 	}
 	fmt.Printf("%s: runs=%d cases=%d distinct_nontrivial=%d steps=%d unusable=%d violations=%d wall=%.1fs\n",
 		p.ID(), acc.Runs, acc.Evals, acc.DistinctTotal(), acc.Steps, acc.Unusable, nViol, wall)
